@@ -88,19 +88,19 @@ func (k *Key) UnmarshalXML(d *xml.Decoder, start xml.StartElement) error {
 			trust.Inner = append(trust.Inner, '<')
 		}
 	}
-	expectedLen := base64.StdEncoding.DecodedLen(len(trust.Inner))
-	if len(k.KeyID) < expectedLen {
-		k.KeyID = make([]byte, expectedLen)
+	// Always decode into a new slice: a copy of the key that was made before this
+	// call shares the old one and must not change.
+	var keyID []byte
+	if l := base64.StdEncoding.DecodedLen(len(trust.Inner)); l > 0 {
+		keyID = make([]byte, l)
 	}
-	decoded, err := base64.StdEncoding.Decode(k.KeyID, trust.Inner)
+	decoded, err := base64.StdEncoding.Decode(keyID, trust.Inner)
 	if err != nil {
 		// If we run into an error, explicitly clear the KeyID, just in case.
 		k.KeyID = nil
 		return err
 	}
-	if decoded < len(k.KeyID) {
-		k.KeyID = k.KeyID[:decoded]
-	}
+	k.KeyID = keyID[:decoded]
 	return nil
 }
 
